@@ -60,7 +60,21 @@ def example_grammars():
     # a Combine(adjacent=False) region: whitespace and comments ARE skipped between its pieces (only adjacent=True forbids them)
     path = pp.Combine(pp.Word("ab") + pp.ZeroOrMore("." + pp.Word("ab")), adjacent=False)
     use = pp.OneOrMore(pp.Group(pp.Literal("@") + path("p") + pp.Suppress(";")))
-    return [("json", val, ['{a:[1,2,{b:a}],b:12}', '[a,b,[1,[2]],{}]', 'ab']), ("arith", expr, ["1+2*(12-1)/2", "(1)", "1*2*2+1"]),
+    # one compound used in several NAMED COPIES (expr("name") copies the element) around a Forward that is defined afterwards;
+    # the comment is registered once, on the finished grammar
+    block = pp.Forward()
+    handler = pp.Word("ab")("ev") + block
+    button = pp.Keyword("on") + pp.Group(handler("press")) + pp.Group(handler("release"))
+    stmt = pp.Group(pp.Word("ab") + pp.Suppress("=") + pp.Word("12") + pp.Suppress(";")) | pp.Group(button) | pp.Group(block)
+    block <<= pp.Suppress("{") + pp.ZeroOrMore(stmt) + pp.Suppress("}")
+    prog = pp.OneOrMore(pp.Group(button))
+    item = pp.Forward()
+    pair = pp.Word("ab")("k") + pp.Suppress(":") + item
+    both = pp.Group(pair("first")) + pp.Suppress(",") + pp.Group(pair.copy()) + pp.Suppress(",") + pp.Group(pair("third"))
+    item <<= pp.Word("12") | pp.Group(pp.Suppress("(") + both + pp.Suppress(")"))
+    return [("named-copies-forward", prog, ["on a{b=1;}b{a=2;}", "on a{}b{on b{}a{a=1;}}"]),
+            ("named-copies-pair", both, ["a:1,b:2,a:12", "a:(a:1,b:2,b:1),b:2,a:1"]),
+            ("json", val, ['{a:[1,2,{b:a}],b:12}', '[a,b,[1,[2]],{}]', 'ab']), ("arith", expr, ["1+2*(12-1)/2", "(1)", "1*2*2+1"]),
             ("combine-nonadjacent", use, ["@ab.ba;@a;", "@a.b.ab;"])]
 
 
